@@ -18,7 +18,8 @@ LEVEL = "exploration"
 RULE = ("one run = one tile store (format x image mode fixed per run) driven through a generated history of 2-14 operations on 1-2 "
         "positions - write(image with a drawn mask pattern, incl. fully undefined), read(default none / masked), locked update(rectangle, "
         "masked source), nested updates and held masked reads of two positions through one PyramidIO object, plant a leftover tile file "
-        "behind toasty's back, delete a file externally - plus in-memory fill / update of "
+        "behind toasty's back, delete a file externally, each on the default storage format or on a second one kept side by side through the "
+        "format= override - plus in-memory fill / update of "
         "maskable buffers with drawn (also negative-step) indexers; after every operation the store is compared with a numpy model "
         "(file exists iff defined and not entirely undefined; read-back bit-identical with the same mode); non-trivial = some position "
         "was touched by >= 2 operations; distinct = sha1 of the operation log. Fault kinds: none; interleavings: 1 (serial).")
@@ -39,8 +40,9 @@ MANIFEST = {
     "technique": "deterministic replayable operation-history search against a reference model (stateful model-based testing on the seeded choice-sequence engine; no scheduler / faults apply)",
 }
 BUDGET = {"quick": (1500, 60), "thorough": (120000, 1200)}
-REQUIRED_PROBES = {"quick": ["op_write", "op_update", "op_plant", "op_write_masked_over_existing", "op_read_absent_masked"],
-                   "thorough": ["op_write", "op_update", "op_plant", "op_delete", "op_write_masked_over_existing", "op_read_absent_masked", "op_fill", "op_buf_update", "neg_step_indexer", "op_nested_update", "op_held_read"]}
+REQUIRED_PROBES = {"quick": ["op_write", "op_update", "op_plant", "op_write_masked_over_existing", "op_read_absent_masked", "op_on_alt_format"],
+                   "thorough": ["op_write", "op_update", "op_plant", "op_delete", "op_write_masked_over_existing", "op_read_absent_masked", "op_fill", "op_buf_update", "neg_step_indexer", "op_nested_update", "op_held_read",
+                                "op_on_alt_format", "op_write_masked_over_existing_alt"]}
 CHUNK = 40
 
 MODES = ["F32", "RGBA", "I16", "F64", "RGB", "U8", "I32", "F16x3"]
@@ -84,7 +86,7 @@ def gen_source(mode, h, w, uid, mask):
         a[und] = 0
     elif mode == "RGBA":
         a = np.empty((h, w, 4), dtype=np.uint8)
-        a[..., 0] = (uid * 16 + 1) % 256
+        a[..., 0] = np.where((xx // 5) % 2 == 0, 0, (uid * 16 + 1) % 256)      # colour bytes may be 0 in defined pixels
         a[..., 1] = yy % 256
         a[..., 2] = xx % 256
         a[..., 3] = np.where(und, 0, 1 + (xx + yy + uid) % 255)
@@ -180,6 +182,11 @@ def run_one(ch, env):
     tile_mode = mode if (mode != "RGB" or rgb_store) else "RGBA"
     if fmt == "png" and tile_mode not in ("RGB", "RGBA"):
         fmt = "npy"
+    # a second storage format of the same tiles (format= override) lives side by side with the default one
+    alts = [f for f in FORMATS[tile_mode if tile_mode in FORMATS else mode] if f != fmt]
+    if tile_mode == "RGBA":
+        alts = [f for f in ("png", "npy") if f != fmt]
+    alt = alts[0] if alts and ch.draw(2, kind="use_alt_format") == 1 else None
     nops = 2 + ch.draw(13, kind="n_ops")
     npos = 1 + ch.draw(2, p0=0.7, kind="npos")
     positions = [Pos(1, 0, 1), Pos(2, 3, 0)][:npos]
@@ -189,7 +196,7 @@ def run_one(ch, env):
     touched = {}
     log = []
     probes = {}
-    res = {"config": {"mode": mode, "tile_mode": tile_mode, "format": fmt, "n_ops": nops, "npos": npos, "rgb_store": rgb_store},
+    res = {"config": {"mode": mode, "tile_mode": tile_mode, "format": fmt, "n_ops": nops, "npos": npos, "rgb_store": rgb_store, "alt_format": alt},
            "extra": {"mode_" + mode: 1, "fmt_" + fmt: 1}}
     violation = None
     uid = 0
@@ -198,21 +205,25 @@ def run_one(ch, env):
     def probe(name):
         probes[name] = probes.get(name, 0) + 1
 
+    def fkw(plane):
+        return {"format": alt} if plane else {}
+
     def check_store(after):
+      for plane in ((0, 1) if alt else (0,)):
         for p in positions:
-            path = pio.tile_path(p, makedirs=False)
+            path = pio.tile_path(p, makedirs=False, **fkw(plane))
             exists = os.path.exists(path)
-            want = model.get(p)
+            want = model.get((p, plane))
             if want is None:
                 if exists:
-                    return viol(PROP, "stale-file-kept", "after %s: tile %s is entirely undefined / absent in the model but a file exists" % (after, tuple(p)))
-                img = pio.read_image(p, default="none")
+                    return viol(PROP, "stale-file-kept", "after %s: tile %s%s is entirely undefined / absent in the model but a file exists" % (after, tuple(p), " (format=%s plane)" % alt if plane else ""))
+                img = pio.read_image(p, default="none", **fkw(plane))
                 if img is not None:
                     return viol(PROP, "absent-reads-present", "after %s: absent tile %s read back as an image" % (after, tuple(p)))
             else:
                 if not exists:
-                    return viol(PROP, "tile-not-stored", "after %s: tile %s has defined pixels but no file was stored" % (after, tuple(p)))
-                img = pio.read_image(p, default="none")
+                    return viol(PROP, "tile-not-stored", "after %s: tile %s%s has defined pixels but no file was stored" % (after, tuple(p), " (format=%s plane)" % alt if plane else ""))
+                img = pio.read_image(p, default="none", **fkw(plane))
                 if img is None or not same_pixels(img.asarray(), want):
                     return viol(PROP, "read-back-differs", "after %s: tile %s does not read back with identical pixels (%s)" % (
                         after, tuple(p), "no image" if img is None else "shape %s dtype %s vs %s %s" % (img.asarray().shape, img.asarray().dtype, want.shape, want.dtype)))
@@ -226,7 +237,7 @@ def run_one(ch, env):
     for k in range(nops):
         ops = ["write", "update", "read", "write_masked", "plant", "delete", "fill", "buf_update", "nested_update", "held_read"]
         two = npos == 2 and not rgb_store
-        weights = [4, 0 if rgb_store else 5, 2, 2, 2, 1, 2, 2, 2 if two else 0, 2 if two else 0]
+        weights = [4, 0 if rgb_store else 5, 2, 4 if alt else 2, 2, 1, 2, 2, 2 if two else 0, 2 if two else 0]
         tot = sum(weights)
         v = ch.draw(tot, kind="op")
         acc = 0
@@ -236,19 +247,26 @@ def run_one(ch, env):
                 break
         uid += 1
         p = positions[ch.draw(npos, kind="pos")]
-        desc = "%s#%d" % (op, k)
+        plane = ch.draw(2, p0=0.5, kind="plane") if alt else 0
+        P = (p, plane)
+        kw = fkw(plane)
+        if plane:
+            probe("op_on_alt_format")
+        desc = "%s#%d%s" % (op, k, " format=%s" % alt if plane else "")
         if op in ("write", "write_masked"):
             mask = 3 if op == "write_masked" else ch.draw(3, kind="mask")
             arr = gen_source(tile_mode, 256, 256, uid, mask)
             if tile_mode in ("I16", "I32", "U8", "RGB") and op == "write_masked":
                 # these modes have no 'entirely undefined' tile; write an ordinary one
                 arr = gen_source(tile_mode, 256, 256, uid, 0)
-            if op == "write_masked" and p in model:
+            if op == "write_masked" and P in model:
                 probe("op_write_masked_over_existing")
-            pio.write_image(p, Image.from_array(arr.copy()))
-            model.pop(p, None)
+                if plane:
+                    probe("op_write_masked_over_existing_alt")
+            pio.write_image(p, Image.from_array(arr.copy()), **kw)
+            model.pop(P, None)
             if not entirely_undefined(tile_mode, arr):
-                model[p] = arr
+                model[P] = arr
             probe("op_write")
             touched[p] = touched.get(p, 0) + 1
             desc += " pos=%s mask=%d" % (tuple(p), mask)
@@ -261,7 +279,7 @@ def run_one(ch, env):
             ix0 = ch.draw(256 - w + 1, kind="ix0")
             iy, ix, by, bx = slice(iy0, iy0 + h), slice(ix0, ix0 + w), slice(y0, y0 + h), slice(x0, x0 + w)
             inspect = ch.draw(4, kind="inspect_basis")
-            with pio.update_image(p, masked_mode=IMODE[mode], default="masked") as basis:
+            with pio.update_image(p, masked_mode=IMODE[mode], default="masked", **kw) as basis:
                 # callers may look at the tile they were handed before updating it
                 if inspect == 1:
                     basis.asarray()
@@ -272,12 +290,12 @@ def run_one(ch, env):
                 Image.from_array(src.copy()).update_into_maskable_buffer(basis, iy, ix, by, bx)
             if inspect:
                 probe("op_update_after_inspection")
-            cur = model.get(p)
+            cur = model.get(P)
             buf = cur.copy() if cur is not None else undefined_buffer(tile_mode, 256, 256)
             model_update(mode, buf, src, iy, ix, by, bx)
-            model.pop(p, None)
+            model.pop(P, None)
             if not entirely_undefined(tile_mode, buf):
-                model[p] = buf
+                model[P] = buf
             probe("op_update")
             touched[p] = touched.get(p, 0) + 1
             desc += " pos=%s rect=(%d,%d,%d,%d) mask=%d" % (tuple(p), y0, h, x0, w, mask)
@@ -294,35 +312,35 @@ def run_one(ch, env):
                 x0, w = draw_rect(ch, 256, False)
                 srcs.append((gen_source(mode, 256, 256, uid, m), slice(y0, y0 + h), slice(x0, x0 + w)))
             if op == "nested_update":
-                with pio.update_image(pa, masked_mode=IMODE[mode], default="masked") as ba:
-                    with pio.update_image(pb, masked_mode=IMODE[mode], default="masked") as bb:
+                with pio.update_image(pa, masked_mode=IMODE[mode], default="masked", **kw) as ba:
+                    with pio.update_image(pb, masked_mode=IMODE[mode], default="masked", **kw) as bb:
                         Image.from_array(srcs[1][0].copy()).update_into_maskable_buffer(bb, srcs[1][1], srcs[1][2], srcs[1][1], srcs[1][2])
                     Image.from_array(srcs[0][0].copy()).update_into_maskable_buffer(ba, srcs[0][1], srcs[0][2], srcs[0][1], srcs[0][2])
                 probe("op_nested_update")
             else:
-                ia = pio.read_image(pa, default="masked", masked_mode=IMODE[mode])
-                ib = pio.read_image(pb, default="masked", masked_mode=IMODE[mode])
+                ia = pio.read_image(pa, default="masked", masked_mode=IMODE[mode], **kw)
+                ib = pio.read_image(pb, default="masked", masked_mode=IMODE[mode], **kw)
                 if ch.draw(2, kind="inspect_held"):
                     ia.is_completely_masked()
                     ib.asarray()
                 Image.from_array(srcs[0][0].copy()).update_into_maskable_buffer(ia, srcs[0][1], srcs[0][2], srcs[0][1], srcs[0][2])
                 Image.from_array(srcs[1][0].copy()).update_into_maskable_buffer(ib, srcs[1][1], srcs[1][2], srcs[1][1], srcs[1][2])
-                pio.write_image(pa, ia)
-                pio.write_image(pb, ib)
+                pio.write_image(pa, ia, **kw)
+                pio.write_image(pb, ib, **kw)
                 probe("op_held_read")
             for q, (src, ys, xs) in zip((pa, pb), srcs):
-                cur = model.get(q)
+                cur = model.get((q, plane))
                 buf = cur.copy() if cur is not None else undefined_buffer(tile_mode, 256, 256)
                 model_update(mode, buf, src, ys, xs, ys, xs)
-                model.pop(q, None)
+                model.pop((q, plane), None)
                 if not entirely_undefined(tile_mode, buf):
-                    model[q] = buf
+                    model[(q, plane)] = buf
                 touched[q] = touched.get(q, 0) + 1
             desc += " a=%s b=%s" % (tuple(pa), tuple(pb))
         elif op == "read":
             default = ("none", "masked")[ch.draw(2, kind="read_default")]
-            img = pio.read_image(p, default=default, masked_mode=IMODE[mode])
-            want = model.get(p)
+            img = pio.read_image(p, default=default, masked_mode=IMODE[mode], **kw)
+            want = model.get(P)
             desc += " pos=%s default=%s" % (tuple(p), default)
             if want is None:
                 if default == "none":
@@ -339,17 +357,17 @@ def run_one(ch, env):
             arr = gen_source(tile_mode, 256, 256, uid, ch.draw(3, kind="mask"))
             if entirely_undefined(tile_mode, arr):
                 arr = gen_source(tile_mode, 256, 256, uid, 0)
-            plant(pio.tile_path(p), fmt, arr)
-            model[p] = arr
+            plant(pio.tile_path(p, **kw), alt if plane else fmt, arr)
+            model[P] = arr
             probe("op_plant")
             touched[p] = touched.get(p, 0) + 1
             desc += " pos=%s" % (tuple(p),)
         elif op == "delete":
-            path = pio.tile_path(p, makedirs=False)
+            path = pio.tile_path(p, makedirs=False, **kw)
             if os.path.exists(path):
                 os.unlink(path)
                 probe("op_delete")
-            model.pop(p, None)
+            model.pop(P, None)
             touched[p] = touched.get(p, 0) + 1
             desc += " pos=%s" % (tuple(p),)
         else:
@@ -380,6 +398,13 @@ def run_one(ch, env):
                 by = slice(y0 + h - 1, stop if stop >= 0 else None, -1)
                 probe("neg_step_indexer")
             iy, ix, bx = slice(iy0, iy0 + h), slice(ix0, ix0 + w), slice(x0, x0 + w)
+            xs = ch.draw(4, kind="x_indexer")
+            if xs == 2:
+                stop = x0 - 1
+                bx = slice(x0 + w - 1, stop if stop >= 0 else None, -1)     # mirrored columns
+                probe("neg_step_indexer")
+            elif xs == 3 and x0 + w < bw:
+                bx = slice(x0 - bw, x0 + w - bw)                            # the same columns, counted from the end
             before = mbuf.copy()
             if op == "fill":
                 Image.from_array(src.copy()).fill_into_maskable_buffer(real, iy, ix, by, bx)
